@@ -99,17 +99,36 @@ class C01:
     def __init__(self):
         self.hist = None
         self.proven = set()   # (prover, filekey) that ever had a valid proof accepted (or an attestation quorum)
+        self.window = {}      # filekey -> the chain's ProofWindow parameter when the file was posted
+        self.last = {}        # (prover key) -> height of its last accepted proof / attestation quorum
 
     def __call__(self, rec):
         if rec.get("mod") != "storage":
             return []
         if rec["hist"] != self.hist:
-            self.hist, self.proven = rec["hist"], set()
+            self.hist, self.proven, self.window, self.last = rec["hist"], set(), {}, {}
         out = []
         k, v = opk(rec)
         pre, post = rec["pre"], rec["post"]
         f0, f1 = files(pre), files(post)
         p0, p1 = proofs(pre), proofs(post)
+        if k == "postFile" and rec.get("ok"):
+            self.window[(v["merkle"], v["creator"], rec["h"])] = pre["params"]["proofWindow"]
+        if k == "postProof" and rec.get("success"):
+            self.last[(v["creator"], v["merkle"], v["owner"], v["start"])] = rec["h"]
+        if is_reward(rec):
+            # "stays credited as a prover only by submitting a proof": how long one accepted proof lasts is
+            # the chain's proof window (the parameter in force when the file was posted), not a figure of
+            # the poster's choosing
+            for key, f in f1.items():
+                w = self.window.get(key)
+                if w is None:
+                    continue
+                for x in f["proofs"]:
+                    x = pk(x)
+                    at = self.last.get(x)
+                    if at is not None and x in p1 and p1[x]["lastProven"] == at and rec["h"] - at > 2 * w + pre["params"]["checkWindow"] and rec["h"] - key[2] > 2 * w + pre["params"]["checkWindow"]:
+                        out.append(V("C01", "stale-prover-kept", f"{x[0]} last had a proof accepted at {at}; at reward block {rec['h']} (proof window {w}) it is still counted as a prover of the file posted at {key[2]}"))
         if k == "postProof":
             key = (v["merkle"], v["owner"], v["start"])
             me = (v["creator"],) + key
